@@ -665,3 +665,27 @@ SILENT += [
       ("    elif source_type == \"hl2\":\n        return (candles[:, 3] + candles[:, 4]) / 2", "    elif source_type == \"hl2\":\n        return _hl2(candles)")],
      None, ["C14", "C13"]),
 ]
+
+SILENT += [
+    # the 1m count hoisted out of the route loop - AFTER the partial 1m candle is stored (the seeded version read it before)
+    ("r6-partial-count-hoisted-after-store", BT,
+     [("        with_generation=False,\n    )\n\n    for route in router.all_formatted_routes:\n        timeframe = route['timeframe']\n        if route['exchange'] != exchange or route['symbol'] != symbol:",
+       "        with_generation=False,\n    )\n    stored_1m = len(store.candles.get_storage(exchange, symbol, '1m'))\n\n    for route in router.all_formatted_routes:\n        timeframe = route['timeframe']\n        if route['exchange'] != exchange or route['symbol'] != symbol:"),
+      ("        count_1m = len(store.candles.get_storage(exchange, symbol, '1m'))\n", "        count_1m = stored_1m\n")],
+     None, ["C07", "C12", "C01"]),
+]
+
+SILENT += [
+    # the early return of the fill function done right: the batch is complete only if it also ENDS at the requested end
+    ("r6-fill-absent-early-return-complete-batch", "jesse/modes/import_candles_mode/__init__.py",
+     "    loop_length = ((end_timestamp - start_timestamp) / 60000) + 1\n\n    for _ in range(int(loop_length)):",
+     "    loop_length = ((end_timestamp - start_timestamp) / 60000) + 1\n\n"
+     "    if len(temp_candles) == int(loop_length) and first_candle['timestamp'] == start_timestamp and temp_candles[-1]['timestamp'] == end_timestamp \\\n"
+     "            and all(b['timestamp'] - a['timestamp'] == 60000 for a, b in zip(temp_candles, temp_candles[1:])):\n        return temp_candles\n\n"
+     "    for _ in range(int(loop_length)):", ["C20"]),
+    # the duplicate-delivery guard of the position hook keyed by the order AND the size it leaves (a flip delivers one order twice with two sizes)
+    ("r6-duplicate-delivery-guard-with-size", "jesse/strategies/Strategy.py",
+     [("    def _on_updated_position(self, order: Order) -> None:", "    def _on_updated_position(self, order: Order) -> None:\n        marker = (order.id, self.position.qty)\n"
+       "        if getattr(self, '_last_delivery', None) == marker:\n            return\n        self._last_delivery = marker")],
+     None, ["C06", "C03"]),
+]
